@@ -963,12 +963,35 @@ func (g *c6Gen) cmp(d int) *c6Node {
 	return &c6Node{K: c6Cmp, T: 'B', Op: op, Args: []*c6Node{a, b}}
 }
 
+// flatMix: plain `column OP literal` comparisons joined by AND and OR without any parentheses, AND nested
+// below OR as precedence demands (c1 OR c2 AND c3, c1 AND c2 OR c3, c1 OR c2 AND c3 OR c4): the shape for
+// which a left-to-right fold of the chain and the proper grouping disagree.
+func (g *c6Gen) flatMix() *c6Node {
+	c := func() *c6Node {
+		return &c6Node{K: c6Cmp, T: 'B', Op: pick(g.r, []string{">", ">=", "<", "<=", "=", "!="}), Args: []*c6Node{g.numCol(), g.numLit()}}
+	}
+	and := func(a, b *c6Node) *c6Node { return &c6Node{K: c6And, T: 'B', Args: []*c6Node{a, b}} }
+	or := func(a, b *c6Node) *c6Node { return &c6Node{K: c6Or, T: 'B', Args: []*c6Node{a, b}} }
+	switch g.r.Intn(4) {
+	case 0:
+		return or(c(), and(c(), c()))
+	case 1:
+		return or(and(c(), c()), c())
+	case 2:
+		return or(or(c(), and(c(), c())), c())
+	}
+	return or(c(), and(and(c(), c()), c()))
+}
+
 func (g *c6Gen) boolean(d int) *c6Node {
 	if d <= 0 {
 		if g.r.Intn(6) == 0 {
 			return &c6Node{K: c6Col, T: 'B', Op: g.b}
 		}
 		return g.cmp(0)
+	}
+	if g.r.Intn(12) == 0 {
+		return g.flatMix()
 	}
 	switch k := g.r.Intn(20); {
 	case k < 6:
